@@ -12,9 +12,18 @@
   * `c03_suback`: the MQTT-SN SUBACK is "accepted" exactly when the broker's return code is 0-2,
     and then carries the granted QoS and the remembered topic ID.
   The plain DISCONNECT is C13 `c13_plain_disconnect`.
+  * **all runs** (`Lemmas/GwWatch.lean`: the frame `FW w` for a family `w` of watched MQTT packets, carried
+    through every model function): `c03_subscribe_only_for_subscribe_datagram`,
+    `c03_unsubscribe_only_for_unsubscribe_datagram`, `c03_pubrel_only_for_pubrel_datagram` — in ANY reachable
+    state, an event that is not a datagram of that type (any other datagram, any broker packet, every
+    timer and retransmission fired on the way, EOF, shutdown, the session end) writes NO such packet to the
+    broker; `c03_*_bounded` — over any run there are at most as many as datagrams of the type ("one-to-one":
+    never invented, never repeated; `c03_subscribe` / `c03_unsubscribe` / `c03_sn_simple` say which one).
+  * `c03_own_ping_reply_swallowed`: the PINGRESP of a ping of the gateway itself is not passed on.
 -/
 import Bisquitt.Lemmas.GwSt
 import Bisquitt.Lemmas.GwEmits
+import Bisquitt.Lemmas.GwWatch
 import Bisquitt.Spec.Gateway
 
 namespace Bisquitt.Gw
@@ -37,13 +46,20 @@ theorem c03_sn_simple (g : Gw) (h : g.st = .active) (mid : UInt16) (cid : Bytes)
   · unfold handleSn; simp [legal_of_active g _ h, mqttSend, emit]
   · unfold handleSn handlePingreq; simp [legal_of_active g _ h, mqttSend, emit, h]
 
-/-- **C03.** PUBREC, PUBCOMP, UNSUBACK, PINGRESP: one MQTT-SN packet each, same message ID. -/
-theorem c03_mq_simple (g : Gw) (h : g.st = .active) (mid : UInt16) :
+/-- **C03.** PUBREC, PUBCOMP, UNSUBACK, PINGRESP: one MQTT-SN packet each, same message ID (a PINGRESP
+    when no ping of the gateway itself is outstanding: `c03_own_ping_reply_swallowed`). -/
+theorem c03_mq_simple (g : Gw) (h : g.st = .active) (mid : UInt16) (ho : g.ownPings = 0) :
     (g.handleMq (.pubrec mid)).outs = (g.now, Out.sn (encode (.pubrec mid))) :: g.outs ∧
     (g.handleMq (.pubcomp mid)).outs = (g.now, Out.sn (encode (.pubcomp mid))) :: g.outs ∧
     (g.handleMq (.unsuback mid)).outs = (g.now, Out.sn (encode (.unsuback mid))) :: g.outs ∧
     (g.handleMq .pingresp).outs = (g.now, Out.sn (encode .pingresp)) :: g.outs := by
-  refine ⟨?_, ?_, ?_, ?_⟩ <;> (unfold handleMq; simp [snSend, emit, h])
+  refine ⟨?_, ?_, ?_, ?_⟩ <;> (unfold handleMq; simp [snSend, emit, h, ho])
+
+/-- **C03.** The broker's answer to a PINGREQ of the gateway itself (sleep pinger, `keepBrokerAlive`)
+    is not the translation of anything the client sent: it is counted off and not passed on. -/
+theorem c03_own_ping_reply_swallowed (g : Gw) (ho : g.ownPings > 0) :
+    (g.handleMq .pingresp).outs = g.outs ∧ (g.handleMq .pingresp).ownPings = g.ownPings - 1 := by
+  unfold handleMq; simp [ho]
 
 /-- **C03.** A SUBSCRIBE with a usable filter: exactly one MQTT SUBSCRIBE with the same message
     ID, DUP flag, filter and requested QoS; the transaction stored under the message ID
@@ -98,5 +114,337 @@ theorem c03_suback (g : Gw) (h : g.st ≠ .asleep) (mid : UInt16) (hq c : UInt8)
   unfold handleMq
   simp only [hl, hk]
   split <;> simp [snSend, emit, h]
+
+end Bisquitt.Gw
+
+namespace Bisquitt.Gw
+open Bisquitt Gw
+
+/-! ## every run: SUBSCRIBE / UNSUBSCRIBE / PUBREL are written to the broker only for the client's datagram
+    of that type, at most one each (`Lemmas/GwWatch.lean`: the frame `FW w` carried through every model function) -/
+
+section
+variable (w : Watch)
+
+theorem FW.stopTimers (g : Gw) : FW w 0 g g.stopTimers := by
+  refine ⟨fun hA => ⟨?_, [], rfl, Nat.le_refl _⟩⟩
+  intro x hx
+  obtain ⟨y, hy, rfl⟩ := List.mem_map.mp hx
+  exact hA y hy
+
+theorem FW.finishSession (g : Gw) : FW w 0 g g.finishSession := by
+  unfold Gw.finishSession
+  split
+  · split
+    · exact FW.refl w g
+    · unfold Gw.shutdownDisconnect Gw.emitEnd
+      have h1 : ∀ x : Gw, FW w 0 x (if x.st = .active ∨ x.st = .awake then x.emit (.sn (encode (.disconnect 0))) else x) := by
+        intro x; split
+        · exact FW.emit w x _ rfl
+        · exact FW.refl w x
+      have h2 : ∀ x : Gw, FW w 0 x ((x.emit (.ended x.endCls)).emit .mqClose) := fun x => (FW.emit w x _ rfl).trans (FW.emit w _ _ rfl)
+      exact (((FW.setNow w g _).trans (h1 _)).trans (h2 _)).trans (FW.stopTimers w _)
+  · exact FW.refl w g
+
+theorem FW.advance : ∀ (fuel : Nat) (g : Gw) (t : Nat), FW w 0 g (advance fuel g t) := by
+  intro fuel
+  induction fuel with
+  | zero => intro g t; exact FW.setNow w g _
+  | succ n ih =>
+    intro g t
+    unfold Gw.advance
+    split
+    · exact (FW.finishSession w g).trans (FW.setNow w _ _)
+    · split
+      · exact ((FW.fireDue w g _).trans (FW.finishSession w _)).trans (ih _ t)
+      · exact FW.setNow w g _
+
+theorem FW.sample (g : Gw) : FW w 0 g g.sample := by
+  unfold Gw.sample Gw.sampleBuf Gw.sampleReg Gw.sampleState
+  have e : ∀ (x y : Gw) (o : Out), isWatched w (y.now, o) = false → y.outs = x.outs → y.txs = x.txs →
+      FW w 0 x (y.emit o) := fun x y o ho hou ht => (FW.of_eq w hou ht).trans (FW.emit w y o ho)
+  split <;> split <;> split <;>
+    first
+    | exact FW.refl w g
+    | exact (e _ _ _ rfl rfl rfl)
+    | exact (e _ _ _ rfl rfl rfl).trans (e _ _ _ rfl rfl rfl)
+    | exact ((e _ _ _ rfl rfl rfl).trans (e _ _ _ rfl rfl rfl)).trans (e _ _ _ rfl rfl rfl)
+
+/-- what a client packet may add: the budget of the packet kind its handler forwards -/
+def wBudget (w : Watch) : Pkt → Nat
+  | .publish .. => w.nPub
+  | .subscribe .. => w.nSub
+  | .unsubscribe .. => w.nUnsub
+  | .pubrel _ => w.nRel
+  | _ => 0
+
+theorem FW.handleSn (g : Gw) (p : Pkt) : FW w (wBudget w p) g (g.handleSn p) := by
+  unfold Gw.handleSn
+  split
+  · exact (FW.fail w g _).mono (Nat.zero_le _)
+  · split
+    · exact FW.handleConnect w g _ _ _ _
+    · split
+      · exact FW.connAuth w g _ _ _ _ _
+      · exact FW.refl w g
+    · split
+      · exact FW.connWillTopic w g _ _ _ _ _ _
+      · exact FW.refl w g
+    · split
+      · exact FW.connWillMsg w g _ _ _ _
+      · exact FW.refl w g
+    · exact FW.handleRegister w g _ _
+    · exact FW.handleClientPublish w g _ _ _ _ _ _ _
+    · exact (FW.mqttSendC w g _).mono (w.pubrel _)
+    · exact FW.handleSubscribe w g _ _ _ _ _ _
+    · exact FW.handleUnsubscribe w g _ _ _ _
+    · exact FW.handlePingreq w g
+    · exact FW.handleDisconnect w g _
+    · split
+      · split
+        · exact FW.bpRegack w g _ _ _ _ _ _
+        · exact FW.refl w g
+      · exact FW.refl w g
+    · split
+      · split
+        · split
+          · exact FW.refl w g
+          · split
+            · exact FW.finishTx w g _
+            · exact FW.proceedMQ w g _ _ _ (w.puback _)
+        · exact FW.refl w g
+      · exact FW.refl w g
+    · split
+      · split
+        · split
+          · exact FW.refl w g
+          · exact FW.proceedMQ w g _ _ _ (w.pubrec _)
+        · exact FW.refl w g
+      · exact FW.refl w g
+    · split
+      · split
+        · split
+          · exact FW.refl w g
+          · exact FW.proceedMQ w g _ _ _ (w.pubcomp _)
+        · exact FW.refl w g
+      · exact FW.refl w g
+    · exact (FW.fail w g _).mono (Nat.zero_le _)
+
+theorem FW.handleMq (g : Gw) (p : MqPkt) : FW w 0 g (g.handleMq p) := by
+  unfold Gw.handleMq
+  split
+  · split
+    · exact FW.connConnack w g _ _ _
+    · exact FW.refl w g
+  · split
+    · split
+      · exact (FW.finishTx w g _).trans (FW.snSend w _ _ _)
+      · exact FW.refl w g
+    · exact FW.refl w g
+  · exact FW.snSend w g _ _
+  · exact FW.snSend w g _ _
+  · split
+    · split
+      · split
+        · split
+          · exact (FW.finishTx w g _).trans (FW.snSend w _ _ _)
+          · exact (FW.finishTx w g _).trans (FW.snSend w _ _ _)
+        · exact (FW.finishTx w g _).trans (FW.fail w _ _)
+      · exact FW.refl w g
+    · exact FW.refl w g
+  · exact FW.snSend w g _ _
+  · split
+    · exact FW.of_eq w rfl rfl
+    · split
+      · exact FW.refl w g
+      · exact FW.snSend w g _ _
+  · exact FW.handleBrokerPublish w g _ _ _ _ _ _
+  · split
+    · split
+      · split
+        · exact FW.refl w g
+        · exact FW.proceedSN w g _ _ _
+      · exact FW.refl w g
+    · exact FW.refl w g
+  · exact FW.fail w g _
+
+/-- the budget of an event: that of the client packet it decodes to -/
+def wEvent (w : Watch) : Event → Nat
+  | .sn bytes => match decode (bytes.take Gen.MaxPacketLen) with
+    | .ok (_, p) => wBudget w p
+    | _ => 0
+  | _ => 0
+
+theorem FW.handleEvent (g : Gw) (ev : Event) : FW w (wEvent w ev) g (g.handleEvent ev) := by
+  unfold Gw.handleEvent
+  split
+  · split
+    · rename_i hd p hdec
+      simp only [wEvent, hdec]
+      exact (FW.handleSn w g p).after (FW.keepBrokerAlive w _)
+    · exact (FW.fail w g _).mono (Nat.zero_le _)
+  · exact FW.handleMq w g _
+  · exact FW.fail w g _
+  · split <;> exact FW.fail w g _
+  · exact FW.fail w g _
+  · exact FW.refl w g
+
+theorem FW.step (g : Gw) (t : Nat) (ev : Event) : FW w (wEvent w ev) g (g.step t ev) := by
+  unfold Gw.step Gw.stepCore Gw.deliver
+  have q1 := FW.advance w 100000 g t
+  split
+  · exact ((q1.trans (FW.finishSession w _)).trans (FW.sample w _)).mono (Nat.zero_le _)
+  · have q2 := FW.handleEvent w (Gw.advance 100000 g t) ev
+    exact ((q1.before q2).after (((FW.advance w 100000 _ t).trans (FW.finishSession w _)).trans (FW.sample w _)))
+
+
+theorem allQuiet_init (cfg : Cfg) (a b : UInt16) : AllQuiet w (Gw.init cfg a b) := by
+  intro t ht; simp [Gw.init] at ht
+
+theorem allQuiet_run (cfg : Cfg) (a b : UInt16) (evs : List (Nat × Event)) : AllQuiet w ((Gw.init cfg a b).run evs) := by
+  have gen : ∀ (evs : List (Nat × Event)) (g : Gw), AllQuiet w g →
+      AllQuiet w (evs.foldl (fun g (te : Nat × Event) => g.step te.1 te.2) g) := by
+    intro evs
+    induction evs with
+    | nil => intro g h; exact h
+    | cons e rest ih => intro g h; simp only [List.foldl_cons]; exact ih _ ((FW.step w g e.1 e.2).inv h)
+  exact gen evs _ (allQuiet_init w cfg a b)
+
+/-- in any reachable state an event whose budget is 0 writes no watched packet -/
+theorem watched_unchanged (cfg : Cfg) (a b : UInt16) (hist : List (Nat × Event)) (t : Nat) (ev : Event)
+    (hev : wEvent w ev = 0) :
+    watched w (((Gw.init cfg a b).run hist).step t ev) = watched w ((Gw.init cfg a b).run hist) := by
+  have h := FW.step w ((Gw.init cfg a b).run hist) t ev
+  rw [hev] at h
+  exact h.same (allQuiet_run w cfg a b hist)
+
+/-- in any reachable state any event adds at most its budget -/
+theorem watched_step (cfg : Cfg) (a b : UInt16) (hist : List (Nat × Event)) (t : Nat) (ev : Event) :
+    ∃ new, watched w (((Gw.init cfg a b).run hist).step t ev) = new ++ watched w ((Gw.init cfg a b).run hist) ∧
+      new.length ≤ wEvent w ev := by
+  obtain ⟨_, new, e, l⟩ := (FW.step w ((Gw.init cfg a b).run hist) t ev).keep (allQuiet_run w cfg a b hist)
+  exact ⟨new, e, l⟩
+
+/-- over any run the watched packets are at most the sum of the budgets of the events -/
+theorem watched_bounded (cfg : Cfg) (a b : UInt16) (evs : List (Nat × Event)) :
+    (watched w ((Gw.init cfg a b).run evs)).length ≤ (evs.map fun e => wEvent w e.2).sum := by
+  have gen : ∀ (evs : List (Nat × Event)) (g : Gw), AllQuiet w g →
+      (watched w (evs.foldl (fun g (te : Nat × Event) => g.step te.1 te.2) g)).length ≤
+        (watched w g).length + (evs.map fun e => wEvent w e.2).sum := by
+    intro evs
+    induction evs with
+    | nil => intro g _; simp
+    | cons e rest ih =>
+      intro g hA
+      simp only [List.foldl_cons, List.map_cons, List.sum_cons]
+      obtain ⟨hA', new, e1, l1⟩ := (FW.step w g e.1 e.2).keep hA
+      have := ih _ hA'
+      rw [e1, List.length_append] at this
+      omega
+  have h : (watched w ((Gw.init cfg a b).run evs)).length ≤
+      (watched w (Gw.init cfg a b)).length + (evs.map fun e => wEvent w e.2).sum := gen evs _ (allQuiet_init w cfg a b)
+  have h0 : (watched w (Gw.init cfg a b)).length = 0 := by simp [watched, Gw.init]
+  omega
+
+end
+
+/-! ### the three instances -/
+
+def watchSubscribe : Watch where
+  W := fun p => match p with | .subscribe .. => true | _ => false
+  nPub := 0
+  nSub := 1
+  nUnsub := 0
+  nRel := 0
+  connect := fun f => by unfold ConnFields.toPkt; rfl
+  pingreq := rfl
+  disconnect := rfl
+  puback := fun _ => rfl
+  pubrec := fun _ => rfl
+  pubcomp := fun _ => rfl
+  publish := fun _ _ _ _ _ _ => Nat.le_refl _
+  subscribe := fun _ _ _ _ => Nat.le_refl _
+  unsubscribe := fun _ _ => Nat.le_refl _
+  pubrel := fun _ => Nat.le_refl _
+
+def watchUnsubscribe : Watch where
+  W := fun p => match p with | .unsubscribe .. => true | _ => false
+  nPub := 0
+  nSub := 0
+  nUnsub := 1
+  nRel := 0
+  connect := fun f => by unfold ConnFields.toPkt; rfl
+  pingreq := rfl
+  disconnect := rfl
+  puback := fun _ => rfl
+  pubrec := fun _ => rfl
+  pubcomp := fun _ => rfl
+  publish := fun _ _ _ _ _ _ => Nat.le_refl _
+  subscribe := fun _ _ _ _ => Nat.le_refl _
+  unsubscribe := fun _ _ => Nat.le_refl _
+  pubrel := fun _ => Nat.le_refl _
+
+def watchPubrel : Watch where
+  W := fun p => match p with | .pubrel _ => true | _ => false
+  nPub := 0
+  nSub := 0
+  nUnsub := 0
+  nRel := 1
+  connect := fun f => by unfold ConnFields.toPkt; rfl
+  pingreq := rfl
+  disconnect := rfl
+  puback := fun _ => rfl
+  pubrec := fun _ => rfl
+  pubcomp := fun _ => rfl
+  publish := fun _ _ _ _ _ _ => Nat.le_refl _
+  subscribe := fun _ _ _ _ => Nat.le_refl _
+  unsubscribe := fun _ _ => Nat.le_refl _
+  pubrel := fun _ => Nat.le_refl _
+
+/-- the MQTT SUBSCRIBE / UNSUBSCRIBE / PUBREL packets written so far -/
+abbrev mqSubscribes (g : Gw) := watched watchSubscribe g
+abbrev mqUnsubscribes (g : Gw) := watched watchUnsubscribe g
+abbrev mqPubrels (g : Gw) := watched watchPubrel g
+
+/-- 1 for a datagram that decodes as a SUBSCRIBE / UNSUBSCRIBE / PUBREL, 0 for every other event -/
+abbrev subscribeDatagram (ev : Event) : Nat := wEvent watchSubscribe ev
+abbrev unsubscribeDatagram (ev : Event) : Nat := wEvent watchUnsubscribe ev
+abbrev pubrelDatagram (ev : Event) : Nat := wEvent watchPubrel ev
+
+/-- **C03 (ALL runs).** In any reachable state, an event that is not a SUBSCRIBE datagram of the client — any other
+    datagram, any broker packet, every timer and retransmission fired on the way, EOF, shutdown, the session
+    end — writes no MQTT SUBSCRIBE; a SUBSCRIBE datagram adds at most one; over a run there are at most as many
+    as SUBSCRIBE datagrams. -/
+theorem c03_subscribe_only_for_subscribe_datagram (cfg : Cfg) (a b : UInt16) (hist : List (Nat × Event)) (t : Nat) (ev : Event)
+    (hev : subscribeDatagram ev = 0) :
+    mqSubscribes (((Gw.init cfg a b).run hist).step t ev) = mqSubscribes ((Gw.init cfg a b).run hist) :=
+  watched_unchanged watchSubscribe cfg a b hist t ev hev
+theorem c03_subscribes_bounded (cfg : Cfg) (a b : UInt16) (evs : List (Nat × Event)) :
+    (mqSubscribes ((Gw.init cfg a b).run evs)).length ≤ (evs.map fun e => subscribeDatagram e.2).sum :=
+  watched_bounded watchSubscribe cfg a b evs
+
+/-- **C03 (ALL runs).** The same for UNSUBSCRIBE. -/
+theorem c03_unsubscribe_only_for_unsubscribe_datagram (cfg : Cfg) (a b : UInt16) (hist : List (Nat × Event)) (t : Nat) (ev : Event)
+    (hev : unsubscribeDatagram ev = 0) :
+    mqUnsubscribes (((Gw.init cfg a b).run hist).step t ev) = mqUnsubscribes ((Gw.init cfg a b).run hist) :=
+  watched_unchanged watchUnsubscribe cfg a b hist t ev hev
+theorem c03_unsubscribes_bounded (cfg : Cfg) (a b : UInt16) (evs : List (Nat × Event)) :
+    (mqUnsubscribes ((Gw.init cfg a b).run evs)).length ≤ (evs.map fun e => unsubscribeDatagram e.2).sum :=
+  watched_bounded watchUnsubscribe cfg a b evs
+
+/-- **C03 (ALL runs).** The same for the client's PUBREL (the gateway never retransmits one towards the broker). -/
+theorem c03_pubrel_only_for_pubrel_datagram (cfg : Cfg) (a b : UInt16) (hist : List (Nat × Event)) (t : Nat) (ev : Event)
+    (hev : pubrelDatagram ev = 0) :
+    mqPubrels (((Gw.init cfg a b).run hist).step t ev) = mqPubrels ((Gw.init cfg a b).run hist) :=
+  watched_unchanged watchPubrel cfg a b hist t ev hev
+theorem c03_pubrels_bounded (cfg : Cfg) (a b : UInt16) (evs : List (Nat × Event)) :
+    (mqPubrels ((Gw.init cfg a b).run evs)).length ≤ (evs.map fun e => pubrelDatagram e.2).sum :=
+  watched_bounded watchPubrel cfg a b evs
+
+/-- non-vacuity: which datagrams count -/
+example : subscribeDatagram (.sn (encode (.subscribe false 1 0 7 0 [0x61]))) = 1 ∧
+    subscribeDatagram (.sn (encode (.pingreq []))) = 0 ∧
+    unsubscribeDatagram (.sn (encode (.unsubscribe 0 7 0 [0x61]))) = 1 ∧
+    pubrelDatagram (.sn (encode (.pubrel 7))) = 1 ∧ pubrelDatagram (.sn (encode (.pubrec 7))) = 0 := by decide
 
 end Bisquitt.Gw
